@@ -12,6 +12,27 @@ Lemma len_nil {A} : len (@nil A) = 0. Proof. reflexivity. Qed.
 Lemma len_cons {A} (x : A) l : len (x :: l) = 1 + len l.
 Proof. unfold len. cbn [length]. lia. Qed.
 
+(* the clamped slices are the plain firstn/skipn ones *)
+Lemma skipn_clamp {A} (d : list A) a : skipn (Z.to_nat (Z.min a (len d))) d = skipn (Z.to_nat a) d.
+Proof.
+  unfold len. destruct (Z.le_gt_cases a (Z.of_nat (length d))).
+  - rewrite Z.min_l by lia. reflexivity.
+  - rewrite Z.min_r by lia. rewrite Nat2Z.id. rewrite skipn_all. symmetry. apply skipn_all2. lia.
+Qed.
+Lemma firstn_clamp {A} (d l : list A) n : (length l <= length d)%nat ->
+  firstn (Z.to_nat (Z.min n (len d))) l = firstn (Z.to_nat n) l.
+Proof.
+  intros Hl. unfold len. destruct (Z.le_gt_cases n (Z.of_nat (length d))).
+  - rewrite Z.min_l by lia. reflexivity.
+  - rewrite Z.min_r by lia. rewrite Nat2Z.id. rewrite !firstn_all2 by lia. reflexivity.
+Qed.
+Lemma slice_eq {A} (d : list A) a b : slice d a b = firstn (Z.to_nat (b - a)) (skipn (Z.to_nat a) d).
+Proof. unfold slice. rewrite skipn_clamp. apply firstn_clamp. rewrite skipn_length. lia. Qed.
+Lemma slice_from_eq {A} (d : list A) a : slice_from d a = skipn (Z.to_nat a) d.
+Proof. apply skipn_clamp. Qed.
+Lemma slice_to_eq {A} (d : list A) b : slice_to d b = firstn (Z.to_nat b) d.
+Proof. unfold slice_to. apply firstn_clamp. lia. Qed.
+
 Lemma be_acc_app l1 l2 a : be_acc (l1 ++ l2) a = be_acc l2 (be_acc l1 a).
 Proof. revert a. induction l1 as [|x l1 IH]; intros a; cbn [app be_acc]; auto. Qed.
 
@@ -98,6 +119,6 @@ Proof. revert l. induction n as [|n IH]; intros [|x l] H; cbn; try constructor; 
 Lemma Forall_skipn' {A} (P : A -> Prop) n l : Forall P l -> Forall P (skipn n l).
 Proof. revert l. induction n as [|n IH]; intros [|x l] H; cbn; auto. inversion H; subst; auto. Qed.
 Lemma bytes_ok_slice d a b : bytes_ok d -> bytes_ok (slice d a b).
-Proof. intros H. unfold slice, bytes_ok in *. apply Forall_firstn', Forall_skipn', H. Qed.
+Proof. intros H. rewrite slice_eq. unfold bytes_ok in *. apply Forall_firstn', Forall_skipn', H. Qed.
 Lemma bytes_ok_app a b : bytes_ok a -> bytes_ok b -> bytes_ok (a ++ b).
 Proof. intros. apply Forall_app; auto. Qed.
